@@ -125,3 +125,28 @@ Theorem no_duplicate_injection_run_reorg : forall fx sched st,
   NoDup (injections (run_r (tick_with fx) st sched)) /\
   forall g, In g (injections (run_r (tick_with fx) st sched)) -> ~ In g (snd st).
 Proof. intros. apply run_r_nodup. Qed.
+
+(* progress on a changing history: at any tick of a run in which the oracle samples (no remembered block), nothing fails, the
+   syncer has reached the sampled block and the history CANONICAL AT THAT TICK has a root at or below it, that root is on L2 after
+   the tick (injected now or there already) - whatever reorgs happened before and whatever happens afterwards *)
+Fixpoint final_r (tk : tickfn) (st : state) (sched : list (list row * tin)) : state :=
+  match sched with
+  | [] => st
+  | (h, i) :: r => final_r tk (fst (step tk h st i)) r
+  end.
+
+Lemma final_r_app tk st a b : final_r tk st (a ++ b) = final_r tk (final_r tk st a) b.
+Proof. revert st; induction a as [|[h i] a IH]; intros st; [reflexivity|]. cbn [app final_r]. apply IH. Qed.
+
+Theorem progress_when_caught_up_run_reorg : forall fx pre h i l2 g,
+  sorted_hist h -> fst (final_r (tick_with fx) (0, l2) pre) = 0 ->
+  errfree i -> i_F i <> 0 -> i_F i <= i_lpb i -> ref_latest h (i_F i) = Some g ->
+  let st' := final_r (tick_with fx) (0, l2) (pre ++ [(h, i)]) in
+  fst st' = 0 /\ In g (snd st').
+Proof.
+  intros fx pre h i l2 g Hs H0 Herr Hnz Hle Href st'.
+  subst st'. rewrite final_r_app. cbn [final_r].
+  destruct (final_r (tick_with fx) (0, l2) pre) as [tg l2'] eqn:E. cbn [fst] in H0. subst tg.
+  destruct (progress_when_caught_up_world h fx Hs l2' i g Herr Hnz Hle Href) as [H1 [H2 _]].
+  split; assumption.
+Qed.
